@@ -2,7 +2,7 @@ SPECIFICATION Spec
 CONSTANTS
   Defect = "none"
   N = 4
-  Datasets <- DatasetsAgg4
+  Datasets <- DatasetsAgg4s
   Spans <- SpansNone
   Origins <- OriginsAll
 CONSTRAINT Emit
